@@ -162,8 +162,22 @@ def o2(chk, repo):
             return False
         b = match_stmt_assign(n.stmt, "self.fmmu_used[$i]")
         return b is not None and is_none(n.stmt.value)
-    held_coverage(chk, "R24.1", sym, f, acq, rel, "O2 FMMU slot", 3,
-                  acquire_is_await=False)
+    cfg = held_coverage(chk, "R24.1", sym, f, acq, rel, "O2 FMMU slot", 3,
+                        acquire_is_await=False)
+    # the slot released is the slot claimed
+    rd2 = ReachingDefs(cfg)
+    an = [n for n in cfg.nodes if acq(n)]
+    ai = match_stmt_assign(an[0].stmt, "self.fmmu_used[$i]")["i"]
+    for r in [n for n in cfg.nodes if rel(n)]:
+        ri = match_stmt_assign(r.stmt, "self.fmmu_used[$i]")["i"]
+        ok = same(ai, ri) and (not isinstance(ai, ast.Name) or {
+            id(x) for x in rd2.reaching(r, ai.id)} == {
+                id(x) for x in rd2.reaching(an[0], ai.id)})
+        chk.ob("R24.1", sym, "O2: the slot released is the slot claimed", ok,
+               r.stmt, f"claims fmmu_used[{unparse(ai)}], releases "
+               f"fmmu_used[{unparse(ri)}]: when the search did not stop at "
+               f"its first candidate the claimed slot stays allocated after "
+               f"a cancellation")
     # SyncGroupBase.map_fmmu enters the terminal contexts through an
     # AsyncExitStack and yields inside it
     sym2 = EC + "SyncGroupBase.map_fmmu"
@@ -227,6 +241,31 @@ def o3(chk, repo):
                    f"`{short(n)}`", ok, n.expr,
                    "the group is removed from sync_groups when the context "
                    "is left by an exception")
+    # the kernel table is shared between connections: a slot is claimed
+    # only after the kernel said it is empty
+    cfg3 = CFG(f)
+    upn = [n for n in cfg3.nodes if n.expr is not None and find(
+        "update_elem(self.programs, $k, $v)", n.expr)]
+    lkn = [n for n in cfg3.nodes if n.expr is not None and find(
+        "lookup_elem(self.programs, $k, $*a)", n.expr)]
+    ok = bool(upn) and bool(lkn) and all(
+        any(cfg3.dominates(l, u) for l in lkn) for u in upn)
+    if ok:
+        rd3 = ReachingDefs(cfg3)
+        uk = find("update_elem(self.programs, $k, $v)", upn[0].expr)[0][1]["k"]
+        lk_ = find("lookup_elem(self.programs, $k, $*a)",
+                   lkn[0].expr)[0][1]["k"]
+        ok = same(uk, lk_) and (not isinstance(uk, ast.Name) or {
+            id(x) for x in rd3.reaching(upn[0], uk.id)} <= {
+                id(x) for x in rd3.reaching_after(lkn[0], uk.id)} | {
+                id(x) for x in rd3.reaching(lkn[0], uk.id)})
+    chk.ob("R24.1", sym, "O3: a slot is claimed only after the kernel table "
+           "was probed for that key", ok, upn[0].expr if upn else f,
+           "the program table is shared by all connections on the "
+           "interface; claiming a slot another connection holds makes the "
+           "later release of one of them fail (the task then ends with "
+           "KeyError instead of cancelled) and unregisters the other's "
+           "program")
     # key of the release is the index that was registered
     ups = find("update_elem(self.programs, $k, $v)", f)
     des = find("delete_elem(self.programs, $k)", f)
